@@ -234,25 +234,31 @@ def permute(fn):
 
 
 def make_positive(fn):
-    body = [ast.unparse(s) for s in fn.body
-            if not (isinstance(s, ast.Expr) and isinstance(s.value, ast.Constant))]
-    want = ['metric = self.calculate_element_metrics(raise_negative_metric=False)[:, 0]',
+    """Strict on the statements that decide WHAT is permuted (metric, cond, the
+    early return, the permutation of exactly the rows in cond, the write-back);
+    after the write-back any bookkeeping is accepted as long as it cannot touch
+    the mesh: no use of elements / cond / metric, no access to self.elements or
+    self.nodes, no raise, no return of a value."""
+    stmts = [s for s in fn.body
+             if not (isinstance(s, ast.Expr) and isinstance(s.value, ast.Constant))]
+    core = ['metric = self.calculate_element_metrics(raise_negative_metric=False)[:, 0]',
             'cond = metric < 0',
             'if np.sum(cond) == 0:\n    return',
             'elements = self.elements.data',
             'elements[cond] = self._permute(self.elements.data[cond])',
-            'self.elements.data = elements',
-            'return']
-    core, tail = want[:6], want[6:]
-    if body[:6] != core or body[-1:] != tail:
-        raise TranslateError('make_elements_positive: unexpected body')
-    # between the write-back and the final return only cache invalidation is accepted
-    for extra in body[6:-1]:
-        ok = re.fullmatch(r'self\.\w+\.cache_clear\(\)', extra) or re.fullmatch(
-            r"for key in \(('\w+', ?)+'\w+'\):\n    if key in self\.elemental_data:\n"
-            r"        self\.elemental_data\.pop\(key\)", extra)
-        if not ok:
-            raise TranslateError(f'make_elements_positive: unexpected statement {extra!r}')
+            'self.elements.data = elements']
+    if [ast.unparse(s) for s in stmts[:6]] != core:
+        raise TranslateError('make_elements_positive: the statements computing cond / permuting '
+                             'rows / writing back differ from the modelled ones')
+    for st in stmts[6:]:
+        for n in ast.walk(st):
+            bad = (isinstance(n, ast.Name) and n.id in ('elements', 'cond', 'metric')) or \
+                  (isinstance(n, ast.Attribute) and n.attr in ('elements', 'nodes') and
+                   isinstance(n.value, ast.Name) and n.value.id == 'self') or \
+                  isinstance(n, ast.Raise) or (isinstance(n, ast.Return) and n.value is not None)
+            if bad:
+                raise TranslateError('make_elements_positive: statement after the write-back '
+                                     f'touches the mesh: {ast.unparse(st)!r}')
     return True
 
 
